@@ -378,6 +378,12 @@ func (b *assignmentBuilder) castNode(lhsType types.Type, rhs bmodel.Node) (c bmo
 		return rhs, true
 	}
 
+	if rhs.ReturnsError() {
+		// A call that also returns an error cannot be wrapped: T(f(x)) and f(x).String()
+		// have nowhere to put the second result.
+		return nil, false
+	}
+
 	if b.opts.Stringer && types.AssignableTo(util.StringType(), lhsType) && util.CompliesStringer(rhs.ExprType()) {
 		return b.castNode(lhsType, bmodel.NewStringer(rhs))
 	}
